@@ -221,12 +221,39 @@ func runC16Fault(c *core.Case, k int) {
 	}
 	if ierr != nil {
 		c.Count("fault_import_refused_unchanged", 1)
+		// the refused import must stay refused: a restart brings the node back
+		// with the old image (nothing the failed attempt left behind is applied)
+		target := P.Node
+		if (k/4)%2 == 0 || c.Tier == "thorough" {
+			dir := P.Dir
+			cl.Stop(0)
+			n2, err := drv.NewNode(drv.Config{Dir: dir, Candidate: true, Leaser: litefs.NewStaticLeaser(true, "localhost", "http://127.0.0.1:1")})
+			if err != nil {
+				c.Violate("C16/restart-prevented-by-failed-import/io-fault", fmt.Sprintf("after an import was refused on an I/O fault at %s (node up, database unchanged), a restart on the data directory fails: %v", hit, err), detail)
+				return
+			}
+			defer n2.Close()
+			if !n2.WaitReady(10 * time.Second) {
+				c.Inconclusive("restarted node not ready")
+				return
+			}
+			s2, ok := classify(n2, "after a restart that followed a refused import,")
+			if !ok {
+				return
+			}
+			if s2 != "old" {
+				c.Violate("C16/failed-import-applied-at-restart", fmt.Sprintf("the import met an I/O fault at %s and was answered with an error (%v), the database was unchanged; after a restart the node holds the imported image (%s)", hit, ierr, mon.PosOf(n2, "db")), detail)
+				return
+			}
+			c.Count("fault_refused_then_restart_old", 1)
+			target = n2
+		}
 		// the failed attempt must not block the next one
-		if err := P.Store.DB("db").Import(context.Background(), bytes.NewReader(imgIn.Bytes())); err != nil {
+		if err := target.Store.DB("db").Import(context.Background(), bytes.NewReader(imgIn.Bytes())); err != nil {
 			c.Violate("C16/valid-import-failed", fmt.Sprintf("after an import failed on an I/O fault at %s the same import, repeated without fault, fails: %v", hit, err), detail)
 			return
 		}
-		if s2, ok := classify(P.Node, "after repeating the import without fault,"); !ok {
+		if s2, ok := classify(target, "after repeating the import without fault,"); !ok {
 			return
 		} else if s2 != "new" {
 			c.Violate("C16/import-success-without-effect", "the repeated import returned success but the node still is at the old position", detail)
